@@ -259,7 +259,7 @@ mutual
       simp only [effectFreeS, Bool.and_eq_true] at h
       rw [checksArr] at hk
       simp only [allNan_append] at hk
-      have c1 := effectFree_conforms e h.1 T hk.1 hc
+      have c1 := effectFree_conforms e h.1 T hk.1.1 hc
       rw [typeArr]
       split
       · exact c1
@@ -272,7 +272,7 @@ mutual
       simp only [effectFreeK, Bool.and_eq_true] at h
       rw [checksObj] at hk
       simp only [allNan_append] at hk
-      have c1 := effectFree_conforms e h.1 T hk.1 hc
+      have c1 := effectFree_conforms e h.1 T hk.1.1 hc
       rw [typeObj]
       split
       · exact c1
